@@ -22,7 +22,7 @@ def keyfn(p, clause, detail):
                 return s["k"] + ":" + s["n"]
             return s["k"]
         return f"{clause}/small:" + ",".join(sig(s) for s in body)
-    kinds = sorted({s["k"] for s in body if s["k"] in ("stareq", "ateq", "incbin", "for", "apply", "scope", "block")})
+    kinds = sorted({s["k"] for s in body if s["k"] in ("stareq", "ateq", "incbin", "for", "apply", "scope", "block", "map")})
     return f"{clause}/{p['rom']}/{'+'.join(kinds)}"
 
 
@@ -41,6 +41,9 @@ def run(ctx) -> None:
     # the shadowing family: a name that is a constant outside and a label inside, over a small alphabet, one statement deeper
     asm_mc.design_level(ctx, "shadow", L + 1)
     progs += asm_mc.programs(ctx, "shadow", L + 1)
+    # named scopes inside loop iterations (each iteration exports its own labels)
+    asm_mc.design_level(ctx, "loopscope", L + 2)
+    progs += asm_mc.programs(ctx, "loopscope", L + 2)
     # ... and the same under @= relocation (RAM and ROM run addresses)
     asm_mc.design_level(ctx, "shadowram", L + 2)
     progs += asm_mc.programs(ctx, "shadowram", L + 2)
